@@ -47,6 +47,8 @@ pub enum Step {
     HoldTxn(u8),
     /// the replica on which the latest held transaction runs starts refusing new connections (its sessions stay alive)
     RefuseNewOnHeld,
+    /// RELOAD with a changed pool_size: the pool object (and with it pgcat's ban list) is rebuilt
+    ReloadPool,
 }
 
 #[derive(Clone, Debug, Serialize, Deserialize)]
@@ -81,7 +83,7 @@ impl Part for WirePart {
         true
     }
     fn rule(&self) -> String {
-        "1..2 shards, each with or without a primary, 0..4 replicas on distinct loopback addresses, random or least-outstanding load balancing, healthcheck_delay 0 or 60 s, healthcheck_timeout 150 ms, connect_timeout 200 ms, statement_timeout 0 or 300 ms, ban_time 1 or 60 s; histories of 3..14 steps over {set a replica's fault mode: up / accept-and-close / hang at start-up / hang at query / die on the next message / slow / refuse new connections while keeping the established ones, admin BAN host secs (replica or the primaries' host), UNBAN host, client transaction on a shard with role any|replica|primary (read or write), a statement whose reply stalls after 9 kB, sleep past a short ban, a transaction held open on a replica until the end, that replica starting to refuse new connections}; with ban_time 1 s, half of the histories end with an expiry probe (everything up, bans left to expire, then 26..60 replica-role transactions per shard). The ban list is sampled through SHOW BANS before and after every transaction (observation-driven model). Oracle: the primary never appears in SHOW BANS; a replica enters the ban list only if it was faulty or admin-banned and leaves it only by UNBAN, expiry or the all-replicas-of-its-shard-banned rule; no tagged statement reaches a replica that was certainly banned while another replica of the shard could not have been banned; a transaction with a usable, unbanned candidate is served without error; when every replica of the shard is banned the next checkout is served by one of them; a replica that breaks mid-statement costs that one transaction and is then banned; a transaction that is served only after a connect timeout's worth of waiting leaves a faulty candidate banned; refusals and failovers complete within candidates x timeouts + 2 s, never blocking indefinitely; after the expiry probe every replica of the shard has received at least one statement (a ban ends after ban_time, also under least-outstanding balancing). Non-trivial = a fault active during a transaction that had an alternative candidate".into()
+        "1..2 shards, each with or without a primary, 0..4 replicas on distinct loopback addresses, random or least-outstanding load balancing, healthcheck_delay 0 or 60 s, healthcheck_timeout 150 ms, connect_timeout 200 ms, statement_timeout 0 or 300 ms, ban_time 1 or 60 s; histories of 3..14 steps over {set a replica's fault mode: up / accept-and-close / hang at start-up / hang at query / die on the next message / slow / refuse new connections while keeping the established ones, admin BAN host secs (replica or the primaries' host), UNBAN host, client transaction on a shard with role any|replica|primary (read or write), a statement whose reply stalls after 9 kB, sleep past a short ban, a transaction held open on a replica until the end, that replica starting to refuse new connections, a RELOAD that rebuilds the pool (bans must survive it)}; with ban_time 1 s, half of the histories end with an expiry probe (everything up, bans left to expire, then 26..60 replica-role transactions per shard). The ban list is sampled through SHOW BANS before and after every transaction (observation-driven model). Oracle: the primary never appears in SHOW BANS; a replica enters the ban list only if it was faulty or admin-banned and leaves it only by UNBAN, expiry or the all-replicas-of-its-shard-banned rule; no tagged statement reaches a replica that was certainly banned while another replica of the shard could not have been banned; a transaction with a usable, unbanned candidate is served without error; when every replica of the shard is banned the next checkout is served by one of them; a replica that breaks mid-statement costs that one transaction and is then banned; a transaction that is served only after a connect timeout's worth of waiting leaves a faulty candidate banned; refusals and failovers complete within candidates x timeouts + 2 s, never blocking indefinitely; after the expiry probe every replica of the shard has received at least one statement (a ban ends after ban_time, also under least-outstanding balancing). Non-trivial = a fault active during a transaction that had an alternative candidate".into()
     }
     fn cases(&self, tier: Tier) -> u64 {
         tier.pick(880, 8_000)
@@ -99,6 +101,7 @@ impl Part for WirePart {
             1 => Just(Step::Sleep),
             1 => (0u8..2).prop_map(Step::HoldTxn),
             1 => Just(Step::RefuseNewOnHeld),
+            1 => Just(Step::ReloadPool),
         ];
         (1u8..=2, any::<bool>(), prop_oneof![1 => 0u8..=4, 1 => Just(4u8), 1 => Just(2u8)], any::<bool>(), any::<bool>(), any::<bool>(), prop::bool::weighted(0.3), prop_oneof![Just(1u8), Just(2u8), Just(4u8)], prop::collection::vec(step, 3..15), prop::bool::weighted(0.5))
             .prop_map(|(shards, primary, replicas, loc, healthcheck_delay_zero, statement_timeout, ban_time_short, workers, steps, expiry_probe)| {
@@ -127,6 +130,11 @@ fn replica_ip(r: usize) -> String {
 }
 
 fn config(mocks: &[crate::mock::MockServer], c: &Case) -> PgcatConfig {
+    config_gen(mocks, c, 0)
+}
+
+/// `gen` = number of reloads so far (pool_size alternates between 2 and 3, so every reload rebuilds the pool)
+fn config_gen(mocks: &[crate::mock::MockServer], c: &Case, gen: u32) -> PgcatConfig {
     let mut cfg = PgcatConfig::new();
     cfg.set_general("worker_threads", &c.workers.to_string());
     cfg.set_general("connect_timeout", "200");
@@ -155,7 +163,7 @@ fn config(mocks: &[crate::mock::MockServer], c: &Case) -> PgcatConfig {
     cfg.pools.push(PoolDef {
         name: "db".into(),
         settings,
-        users: vec![UserDef { key: "0".into(), username: "u".into(), password: Some("pw".into()), pool_size: 2, extra: if c.statement_timeout { vec![("statement_timeout".into(), "300".into())] } else { vec![] } }],
+        users: vec![UserDef { key: "0".into(), username: "u".into(), password: Some("pw".into()), pool_size: 2 + (gen % 2), extra: if c.statement_timeout { vec![("statement_timeout".into(), "300".into())] } else { vec![] } }],
         shards,
         raw_tail: String::new(),
     });
@@ -227,6 +235,7 @@ async fn run_case(c: &Case, ctx: &mut WorkerCtx) -> Outcome {
     // lazy) and then still counts for the pooler's all-replicas-banned rule
     let mut stale: HashSet<usize> = HashSet::new();
     let mut cid = 0u32;
+    let mut reload_gen = 0u32;
     // clients that keep a transaction open on a replica: (client, replica index)
     let mut holders: Vec<(crate::cli::Cli, usize)> = vec![];
     let lag = wire::LagMonitor::start(Instant::now());
@@ -433,6 +442,38 @@ async fn run_case(c: &Case, ctx: &mut WorkerCtx) -> Outcome {
                 if ok && on.len() == 1 && on[0] >= np {
                     holders.push((cli, on[0] - np));
                     o.label("held_transaction_on_replica");
+                }
+            }
+            Step::ReloadPool => {
+                // (a held transaction lives on the old pool object: keep the two features apart; and a rebuilt pool is validated
+                // at the next login, which needs every shard reachable - so only while everything is up)
+                if !holders.is_empty() || mode.iter().any(|m| !matches!(m, Mode::Up | Mode::Slow)) {
+                    continue;
+                }
+                reload_gen += 1;
+                env.pg.write_config(&config_gen(&env.mocks, c, reload_gen).to_toml(env.pg.port));
+                let (m, e) = admin.simple("RELOAD", wire::T_REPLY).await;
+                if !matches!(e, ReadEnd::Ready(_)) || m.iter().any(|x| x.code == b'E') {
+                    o.inconclusive = Some(format!("RELOAD of a valid file failed: {:?} {:?}", e, crate::cli::errors(&m)));
+                    break;
+                }
+                o.label("pool_rebuilt_by_reload");
+                if !banned.is_empty() {
+                    o.label("reload_with_bans_in_force");
+                }
+                // a ban is about the server, not about the pool object: it ends by expiry, UNBAN or the all-banned rule only
+                observe!(format!("step {} RELOAD that rebuilds the pool", si), none, None::<usize>);
+                // the first login validates the new pool (a connection to every server)
+                cid += 1;
+                match env.client(cid, "u", "db", "pw", &[]).await {
+                    Ok(mut w) => {
+                        w.send(&proto::terminate()).await;
+                        w.close();
+                    }
+                    Err(e) => {
+                        o.inconclusive = Some(format!("login after the reload: {}", e));
+                        break;
+                    }
                 }
             }
             Step::RefuseNewOnHeld => {
